@@ -297,6 +297,31 @@ fn check_c14(g: &G, sel: u64, mut vd: Verdict) -> Verdict {
     }
     let d = g.dels[pick].clone();
     let b = src.as_bytes();
+    if d.tok == "ASSIGN" {
+        // generator precondition: a name that ends in an argument-less call, followed (after the missing '=') by '(':
+        // the parenthesis becomes the call's argument list, so the name is simply longer
+        let mut before = src[..d.off].trim_end();
+        while before.ends_with("*/") {
+            match before.rfind("/*") {
+                Some(p) => before = before[..p].trim_end(),
+                None => break,
+            }
+        }
+        let bare_call = before.rfind('%').map_or(false, |p| before[p + 1..].chars().next().is_some() && before[p + 1..].chars().all(|c| c.is_alphanumeric() || c == '_'));
+        let mut q = d.off + d.len;
+        loop {
+            let rest = &src[q..];
+            match rest.chars().next() {
+                Some(c) if c.is_whitespace() => q += c.len_utf8(),
+                Some(_) if rest.starts_with("/*") => match rest[2..].find("*/") { Some(e) => q += e + 4, None => break },
+                _ => break,
+            }
+        }
+        if bare_call && src[q..].starts_with('(') {
+            vd.discard = Some("a name ending in an argument-less call followed by '(' (the call takes the parenthesis)");
+            return vd;
+        }
+    }
     let ws_adj = (d.off > 0 && (b[d.off - 1] as char).is_ascii_whitespace()) || (d.off + d.len < b.len() && (b[d.off + d.len] as char).is_ascii_whitespace());
     let mut m = src.clone();
     // the delimiter is left out; without whitespace next to it a blank takes its place, otherwise
